@@ -376,4 +376,54 @@ end
 theorem tripTy_eq (t : Ty) : tripTy t = some t := by
   simp [tripTy, encode_ofTy t, decode_ofTy t, toTy_ofTy]
 
+/-! ### schema fields, variable contexts -/
+
+theorem encodeFields_ofTys (ns : List Name) (ts : List Ty) : encodeFields ⟨ns, ofTys ts⟩ = some ⟨ns, ofTys ts⟩ := by
+  simp [encodeFields, encode_ofTys]
+theorem decodeFields_ofTys (ns : List Name) (ts : List Ty) : decodeFields ⟨ns, ofTys ts⟩ = some ⟨ns, ofTys ts⟩ := by
+  simp [decodeFields, decode_ofTys]
+
+
+theorem decodePhysCtxRev_ok : ∀ (fs out : List (Fields RT)), (∀ f ∈ fs, decodeFields f = some f) →
+    decodePhysCtxRev fs out = some (fs.reverse ++ out)
+  | [], out, _ => by simp [decodePhysCtxRev]
+  | f :: fs, out, h => by
+    simp only [decodePhysCtxRev, h f (by simp)]
+    rw [decodePhysCtxRev_ok fs (f :: out) (fun g hg => h g (List.mem_cons_of_mem _ hg))]
+    simp
+
+theorem encodePhysCtx_ok : ∀ (fs : List (Fields RT)), (∀ f ∈ fs, encodeFields f = some f) → encodePhysCtx fs = some fs
+  | [], _ => by simp [encodePhysCtx]
+  | f :: fs, h => by
+    simp [encodePhysCtx, h f (by simp), encodePhysCtx_ok fs (fun g hg => h g (List.mem_cons_of_mem _ hg))]
+
+/-- the frames of a physical variable context as the Go structs hold them -/
+def physFrames (frames : List (List Name × List Ty)) : List (Fields RT) := frames.map fun f => ⟨f.1, ofTys f.2⟩
+
+
+def framesDursOk : List (List Value) → Prop
+  | [] => True
+  | f :: fs => dursOk f ∧ framesDursOk fs
+
+theorem encodeExecCtx_ok : ∀ (fs : List (List Value)), encodeExecCtx (fs.map ofValues) = some (fs.map encPs)
+  | [] => by simp [encodeExecCtx]
+  | f :: fs => by simp [encodeExecCtx, encode_ofValues f, encodeExecCtx_ok fs]
+
+theorem decodeExecCtxRev_ok : ∀ (fs : List (List Value)) (out : List (List GV)), (∀ f ∈ fs, dursOk f) →
+    decodeExecCtxRev (fs.map encPs) out = some ((fs.map fun f => ofValues (normLocs f)).reverse ++ out)
+  | [], out, _ => by simp [decodeExecCtxRev]
+  | f :: fs, out, h => by
+    simp only [List.map_cons, decodeExecCtxRev, decode_encPs f (h f (by simp))]
+    rw [decodeExecCtxRev_ok fs _ (fun g hg => h g (List.mem_cons_of_mem _ hg))]
+    simp
+
+theorem framesDursOk_mem : ∀ (fs : List (List Value)), framesDursOk fs → ∀ f ∈ fs, dursOk f
+  | [], _, f, hf => by simp at hf
+  | g :: fs, h, f, hf => by
+    simp only [framesDursOk] at h
+    rcases List.mem_cons.mp hf with rfl | hf
+    · exact h.1
+    · exact framesDursOk_mem fs h.2 f hf
+
+
 end Octo.Wire
